@@ -298,6 +298,14 @@ def scale_shapes():
         S("float", ("precision", 15)), S("float", ("min", 0.0), ("max", 1.0), ("precision", 15)),
         S("float", call(1e300), ("precision", 15)), S("float", call(-1.5e306), ("precision", 3)),
         ("subst", S("float", ("precision", 3)), 1.5e306),
+        # alphabets whose letters are metacharacters inside a regex character class
+        S("str", ("alphabet", "a-c"), ln(1, 3)), S("str", ("alphabet", "^ab"), ln(2)), S("str", ("alphabet", "ab]"), ln(2)),
+        S("str", ("alphabet", "a\\b"), ln(1, 2)), S("str", ("alphabet", "0-9_-"), ("contains", "-")),
+        S("str", ("alphabet", "[a]"), ln(3)),
+        # substitutions that must not succeed (a marker inside the value of a typed list): were one
+        # to build, the result is judged like any other schema
+        ("subst", ("list", ("typed", INT), ()), [1, E, 3]), ("subst", ("list", ("typed", INT), ()), [E, 1, E, 2]),
+        ("subst", ("dict", (("a", False, ("list", ("typed", STR), ())),), False), {"a": ["x", E, "y"]}),
         # negated classes with a range / literal BEFORE a category
         S("str", ("regex", "[^a-c\\d]x")), S("str", ("regex", "^[^_\\d]{2}$")), S("str", ("regex", "[^A-Z\\w]")),
         # an accept-anything element next to the open end of a list that must be padded
